@@ -104,10 +104,14 @@ pub struct Profile {
     /// floods, oversized header lists, PING / SETTINGS floods while writes are blocked, PUSH_PROMISE and 1xx floods, frames on
     /// forgotten streams; a slow or never-accepting application (no extra PRNG draws for the other profiles)
     pub abuse: bool,
+    /// C05 (receive direction on a client): bursts of PUSH_PROMISE on one request followed by the pushed responses' HEADERS
+    /// (streams left open), so that more pushed streams want to be active than the client advertised (no extra PRNG draws
+    /// for the other profiles)
+    pub pushlimit: bool,
 }
 
 pub fn profile(name: &str) -> Profile {
-    let base = Profile { name: "mixed", w_conn_poll: 30, w_peer: 30, w_app: 40, w_io: 3, w_chaos: 0, w_end: 1, max_data: 3000, tiny_windows: false, small_limits: false, recv_heavy: false, control: false, queue: false, backpressure: false, starve: false, fuzz: false, race: false, late_reset: false, bufcap: false, legal_peer: false, idle: false, inject: false, abuse: false };
+    let base = Profile { name: "mixed", w_conn_poll: 30, w_peer: 30, w_app: 40, w_io: 3, w_chaos: 0, w_end: 1, max_data: 3000, tiny_windows: false, small_limits: false, recv_heavy: false, control: false, queue: false, backpressure: false, starve: false, fuzz: false, race: false, late_reset: false, bufcap: false, legal_peer: false, idle: false, inject: false, abuse: false, pushlimit: false };
     match name {
         "flow" => Profile { name: "flow", tiny_windows: true, max_data: 400, w_io: 6, ..base },
         "limits" => Profile { name: "limits", small_limits: true, max_data: 200, ..base },
@@ -120,6 +124,7 @@ pub fn profile(name: &str) -> Profile {
         "legal" => Profile { name: "legal", legal_peer: true, w_end: 0, ..base },
         "bp" => Profile { name: "bp", backpressure: true, max_data: 3000, w_io: 14, w_peer: 32, w_app: 36, w_conn_poll: 30, ..base },
         "bplimits" => Profile { name: "bplimits", backpressure: true, small_limits: true, max_data: 3000, w_io: 14, w_peer: 40, w_app: 28, w_conn_poll: 30, ..base },
+        "pushlimit" => Profile { name: "pushlimit", small_limits: true, pushlimit: true, max_data: 200, w_peer: 35, w_app: 40, w_conn_poll: 25, ..base },
         "queue" => Profile { name: "queue", small_limits: true, queue: true, max_data: 100, w_app: 55, w_peer: 25, w_conn_poll: 20, w_io: 2, ..base },
         "bufcap" => Profile { name: "bufcap", bufcap: true, max_data: 30, w_app: 55, w_peer: 15, w_conn_poll: 30, w_io: 1, w_end: 0, ..base },
         "starve" => Profile { name: "starve", starve: true, max_data: 60, w_app: 55, w_peer: 20, w_conn_poll: 25, w_io: 1, w_end: 0, ..base },
@@ -1274,6 +1279,53 @@ pub fn run_random(d: &mut Driver, rng: &mut Rng, p: &Profile, steps: usize) {
                 ended = true;
                 pv.queue.extend(m);
                 continue;
+            }
+        }
+        if p.pushlimit && d.cfg.role_client {
+            if let Some(op) = pv.queue.pop_front() {
+                log_op(&op);
+                d.exec(&op);
+                done += 1;
+                continue;
+            }
+            if d.cfg.enable_push != Some(false) && !pv.goaway_seen && !pv.sent_goaway && rng.chance(1, 9) {
+                // a burst of promises on one live request, then the pushed responses start (and stay open)
+                let parent = pv.streams.iter().find(|s| !s.initiated_by_peer && s.peer_open && !s.reset && s.ep_open || (!s.initiated_by_peer && s.peer_open && !s.reset)).map(|s| s.sid);
+                if let Some(parent) = parent {
+                    let lim = d.cfg.max_concurrent_streams.unwrap_or(2) as u64;
+                    let k = lim + rng.range(0, 2);
+                    let ph = (0..d.handles.len()).find(|&h| d.handles[h].sid == parent);
+                    let mut m: Vec<Value> = Vec::new();
+                    let mut sids = Vec::new();
+                    for _ in 0..k.max(1) {
+                        let sid = pv.next_peer_sid;
+                        pv.next_peer_sid += 2;
+                        let block = wire::hpack_literal(&[
+                            (b":method".to_vec(), b"GET".to_vec()),
+                            (b":scheme".to_vec(), b"https".to_vec()),
+                            (b":path".to_vec(), b"/pushed".to_vec()),
+                            (b":authority".to_vec(), b"example.com".to_vec()),
+                        ]);
+                        pv.streams.push(PStream { sid, peer_open: true, ep_open: false, reset: false, peer_head_sent: true, window: pv.ep_init_window, sent_off: 0, initiated_by_peer: true, lag: 0 });
+                        m.push(peer_bytes(wire::push_promise(parent, sid, &block), json!({"t":"PUSH_PROMISE","sid":parent,"promised":sid})));
+                        sids.push(sid);
+                    }
+                    if rng.chance(1, 2) { m.push(json!({"op":"conn_poll"})); }
+                    if let Some(h) = ph {
+                        if d.handles[h].pushes.is_none() && d.handles[h].resp.is_some() { m.push(json!({"op":"push_promises","h":h})); }
+                    }
+                    for sid in sids {
+                        let st = *rng.pick(&[200u32, 204, 404]);
+                        let block = resp_block(rng, st);
+                        m.push(peer_bytes(wire::headers(sid, &block, false, 0), json!({"t":"HEADERS","sid":sid,"eos":false})));
+                        if rng.chance(1, 2) { m.push(json!({"op":"conn_poll"})); }
+                        if let Some(h) = ph { if rng.chance(1, 2) { m.push(json!({"op":"poll_push","h":h})); } }
+                    }
+                    m.push(json!({"op":"conn_poll"}));
+                    if let Some(h) = ph { m.push(json!({"op":"poll_push","h":h})); m.push(json!({"op":"poll_push","h":h})); }
+                    pv.queue.extend(m);
+                    continue;
+                }
             }
         }
         if p.recv_heavy && d.cfg.role_client {
